@@ -99,6 +99,9 @@ pub struct SampleStreamSource {
     queue: Arc<SpscRing<MediaSample>>,
     notify: Arc<Notify>,
     pop_lock: Arc<SyncMutex<()>>,
+    /// Serialises producers: `SpscRing::push` is single-producer, but this handle is
+    /// `Clone + Sync`, so clones / shared references may send from several threads.
+    push_lock: Arc<SyncMutex<()>>,
     source_closed: Arc<AtomicBool>,
     active_senders: Arc<std::sync::atomic::AtomicUsize>,
     drop_count: Arc<AtomicU64>,
@@ -125,6 +128,7 @@ pub fn sample_track(
     let queue = Arc::new(SpscRing::with_capacity(capacity));
     let notify = Arc::new(Notify::new());
     let pop_lock = Arc::new(SyncMutex::new(()));
+    let push_lock = Arc::new(SyncMutex::new(()));
     let source_closed = Arc::new(AtomicBool::new(false));
     let active_senders = Arc::new(std::sync::atomic::AtomicUsize::new(1));
     let drop_count = Arc::new(AtomicU64::new(0));
@@ -147,6 +151,7 @@ pub fn sample_track(
         queue,
         notify,
         pop_lock,
+        push_lock,
         source_closed,
         active_senders,
         drop_count,
@@ -166,6 +171,7 @@ impl Clone for SampleStreamSource {
             queue: self.queue.clone(),
             notify: self.notify.clone(),
             pop_lock: self.pop_lock.clone(),
+            push_lock: self.push_lock.clone(),
             source_closed: self.source_closed.clone(),
             active_senders: self.active_senders.clone(),
             drop_count: self.drop_count.clone(),
@@ -175,6 +181,7 @@ impl Clone for SampleStreamSource {
 
 impl SampleStreamSource {
     fn try_send_drop_oldest(&self, sample: MediaSample) -> MediaResult<()> {
+        let _push_guard = self.push_lock.lock();
         #[cfg(rustrtc_verif)]
         crate::verif_hooks::media::verif_yield(crate::verif_hooks::media::point::SRC_LOAD_CLOSED);
         if self.source_closed.load(Ordering::Acquire) {
@@ -268,6 +275,7 @@ impl SampleStreamSource {
                 actual: sample.kind(),
             });
         }
+        let _push_guard = self.push_lock.lock();
         #[cfg(rustrtc_verif)]
         crate::verif_hooks::media::verif_yield(crate::verif_hooks::media::point::SRC_LOAD_CLOSED);
         if self.source_closed.load(Ordering::Acquire) {
